@@ -257,6 +257,20 @@ func (r *udpRig) step(f []string) (string, []dgram) {
 		n := r.u.Flush()
 		ds := r.drain(n)
 		return fmtSent(ds), ds
+	case "txplan":
+		var plan []int
+		for _, x := range strings.Split(f[2], ",") {
+			switch x {
+			case "x":
+				plan = append(plan, 0)
+			case "r":
+				plan = append(plan, -1)
+			default:
+				plan = append(plan, vlib.Atoi(x))
+			}
+		}
+		r.u.SetTXPlan(plan)
+		return "ok", nil
 	case "drain":
 		// read everything queued, serve everything pending, flush — until nothing is left
 		var all []dgram
@@ -334,8 +348,11 @@ func execUDP(f []string) vlib.Res {
 	if f[1] != "send" {
 		tags = "nt"
 	}
-	if f[1] == "send" {
+	if f[1] == "send" || f[1] == "txplan" {
 		or = "-"
+	}
+	if f[1] == "txplan" {
+		tags = "txplan"
 	}
 	return vlib.Res{Impl: ra, Oracle: or, Tags: tags}
 }
